@@ -512,3 +512,45 @@ def ord6(ctx, pid):
             ctx.ok("accessor:SparseMerkleProof.%s" % name, g.loc(), "returns the tracked %s" % name, nontrivial=False, rule="PROV11")
         else:
             ctx.bad("accessor:SparseMerkleProof.%s" % name, g.loc(), "accessor returns `%s`" % "; ".join(tstr(r) for r in rets), rule="PROV11")
+
+
+@rule("SMTINIT", ["C14"])
+def smtinit(ctx, pid):
+    """The empty tree: depth = 8 * key_size levels folded up from the default leaf, every level stored under
+    its keccak, the root stored last."""
+    eng = S(ctx)
+    f = ctx.P.func(SMT + ".__init__")
+    ks = ("p", f.params[1])
+    probs = []
+    seen = False
+    for p, st in pq.states(ctx, f, unroll=1):
+        if p.exit[0] == "raise":
+            continue
+        seen = True
+        depth = st.attrs.get("self.depth")
+        if depth != eng.mk_bin("*", ks, C(8)):
+            probs.append("depth is `%s`, expected key_size * 8" % (tstr(depth) if depth else None))
+        loops = [ev for ev in st.events if ev.k == "bind" and ev.a == "for"]
+        for ev in loops:
+            it = eng.ev(ev.b, f, st)
+            if it != ("call", "ext:range", (eng.mk_bin("*", ks, C(8)),), ()) and it != ("call", "ext:range", (("attr", ("self",), "depth"),), ()):
+                probs.append("the fold loop runs over `%s`, expected range(depth)" % tstr(it)[:40])
+        node = st.env.get("node")
+        if loops and node is not None:
+            # after one iteration: node = h + h with h = keccak(previous node)
+            if not (node[0] == "bin" and node[1] == "+" and node[2] == node[3] and node[2][0] == "call" and node[2][1] == KECCAK):
+                probs.append("a level is built as `%s`, expected keccak(node) + keccak(node)" % tstr(node)[:60])
+            else:
+                inner = node[2][2][0]
+                if inner != ("p", f.params[2]) and inner != ("attr", ("self",), "_default"):
+                    probs.append("the fold starts from `%s`, not from the default leaf" % tstr(inner)[:40])
+        root = st.attrs.get("self.root_hash")
+        if root is None or not (root[0] == "call" and root[1] == KECCAK and root[2][0] == node):
+            probs.append("root_hash is `%s`, expected keccak of the top node" % (tstr(root)[:50] if root else None))
+    c = "empty-tree:SparseMerkleTree.__init__"
+    if probs:
+        ctx.bad(c, f.loc(), probs[0], witness={"problems": sorted(set(probs))})
+    elif not seen:
+        ctx.bad(c, f.loc(), "constructor has no successful path")
+    else:
+        ctx.ok(c, f.loc(), "depth = 8 * key_size; each level is keccak(node) + keccak(node) starting from the default leaf; root_hash = keccak(top)")
